@@ -531,6 +531,122 @@ def run_disk(writes, gz, batch, name="f", mode=None, relpath=None, direct=None):
         shutil.rmtree(d, ignore_errors=True)
 
 
+def run_disk_history(paths, batches, ops):
+    """phase 6: ONE DiskSink and ONE DiskSource object per path, used in the order of `ops` (write / complete read /
+    read abandoned after k lines / two simultaneous reads of the same source object / read through a fresh sibling object).
+    Returns one observation per op; also reports a write that changed the caller's list."""
+    from coba.pipes.sinks import DiskSink
+    from coba.pipes.sources import DiskSource
+    d = tempfile.mkdtemp(prefix="c12h_")
+    outs, mutated = [], []
+    try:
+        full = [os.path.join(d, q) for q in paths]
+        for f in full:
+            os.makedirs(os.path.dirname(f), exist_ok=True)
+        sinks = [DiskSink(f, **({"batch": b} if b else {})) for f, b in zip(full, batches)]
+        srcs = [DiskSource(f) for f in full]
+        held = {}
+        for i, op in enumerate(ops):
+            pi = op["p"]
+            try:
+                if op["o"] == "w":
+                    lines = list(op["lines"])
+                    how = op.get("as", "list")
+                    if how == "str" and len(lines) == 1:
+                        arg = lines[0]
+                    elif how == "tuple":
+                        arg = tuple(lines)
+                    elif how == "gen":
+                        arg = (l for l in lines)
+                    elif how == "same" and op.get("of") in held and held[op["of"]] is not None and held[op["of"]] == lines:
+                        arg = held[op["of"]]
+                    else:
+                        arg = list(lines)
+                    held[i] = arg if isinstance(arg, list) else None
+                    sinks[pi].write(arg)
+                    if isinstance(arg, list) and arg != lines:
+                        mutated.append(i)
+                    if isinstance(arg, list) and op.get("scribble"):
+                        # the list belongs to the caller: changing it afterwards must not change the file
+                        held[i] = None
+                        arg.append("SCRIBBLED")
+                        if len(arg) > 1:
+                            arg[0] = "SCRIBBLED"
+                    outs.append("wrote")
+                elif op["o"] == "r":
+                    src = DiskSource(full[pi]) if op.get("how") == "fresh" else srcs[pi]
+                    outs.append({"lines": {"ok": list(src.read())}})
+                elif op["o"] == "k":
+                    it = iter(srcs[pi].read())
+                    got = []
+                    for _ in range(op["k"]):
+                        try:
+                            got.append(next(it))
+                        except StopIteration:
+                            break
+                    if op.get("how") == "close":
+                        it.close()
+                    del it
+                    outs.append({"lines": {"ok": got}})
+                elif op["o"] == "z":
+                    it1, it2 = iter(srcs[pi].read()), iter(srcs[pi].read())
+                    g1, g2, live = [], [], [True, True]
+                    while any(live):
+                        for n, (it, g) in enumerate(((it1, g1), (it2, g2))):
+                            if live[n]:
+                                try:
+                                    g.append(next(it))
+                                except StopIteration:
+                                    live[n] = False
+                    outs.append({"lines2": [{"ok": g1}, {"ok": g2}]})
+            except FileNotFoundError:
+                outs.append("nofile")
+            except Exception as e:
+                outs.append({"lines": {"err": errname(e)}} if op["o"] != "w" else {"err": errname(e)})
+        return outs, mutated
+    finally:
+        import gc
+        gc.collect()
+        shutil.rmtree(d, ignore_errors=True)
+
+
+def run_delim_history(objs, ops):
+    """ONE DelimSource object per chunk list, read several times (complete / abandoned after k lines / two at once)."""
+    from coba.pipes.sources import DelimSource, IterableSource
+    srcs = [DelimSource(IterableSource(list(c))) for c in objs]
+    outs = []
+    for op in ops:
+        try:
+            if op["o"] == "r":
+                outs.append({"lines": {"ok": list(srcs[op["p"]].read())}})
+            elif op["o"] == "k":
+                it = iter(srcs[op["p"]].read())
+                got = []
+                for _ in range(op["k"]):
+                    try:
+                        got.append(next(it))
+                    except StopIteration:
+                        break
+                if op.get("how") == "close":
+                    it.close()
+                del it
+                outs.append({"lines": {"ok": got}})
+            else:
+                it1, it2 = iter(srcs[op["p"]].read()), iter(srcs[op["p"]].read())
+                g1, g2, live = [], [], [True, True]
+                while any(live):
+                    for n, (it, g) in enumerate(((it1, g1), (it2, g2))):
+                        if live[n]:
+                            try:
+                                g.append(next(it))
+                            except StopIteration:
+                                live[n] = False
+                outs.append({"lines2": [{"ok": g1}, {"ok": g2}]})
+        except Exception as e:
+            outs.append({"lines": {"err": errname(e)}})
+    return outs
+
+
 def keepends(lines, via):
     """the lines as an open file / `text.splitlines(keepends=True)` hands them over: every line still carries its
     terminator ('\\n', '\\r\\n' or a per-line mix), a blank line is '\\n' or '\\r\\n', the last line may lack one"""
@@ -590,7 +706,9 @@ def run_arff(lines, dense, src=False, reader=None):
             rows = list(ArffReader().filter(list(lines)))
         out = []
         for r in rows:
-            if dense:
+            # materialise by the shape of the row the reader RETURNED, not by what the case intended: a dense file that coba
+            # takes for sparse (known finding C12-F17) yields dict rows (phase 6: corrected false alarm, see notes)
+            if not hasattr(r, "keys"):
                 cells = [canon_cell(v) for v in r]
                 hdr = [k for k, _ in sorted(dict(r.headers).items(), key=lambda kv: kv[1])]
                 byname = [canon_cell(r[h]) for h in hdr]
@@ -874,6 +992,10 @@ def arff_compare(case, got):
     if len(rows) != len(exp):
         return "row-count", "%d rows read, %d written" % (len(rows), len(exp))
     for i, (g, e) in enumerate(zip(rows, exp)):
+        if dense and "headers" not in g:
+            return "rows-are-sparse", "row %d came back as a sparse row %r, a dense row %r was written" % (i, g["cells"], e["cells"])
+        if not dense and "headers" in g:
+            return "rows-are-dense", "row %d came back as a dense row %r, a sparse row %r was written" % (i, g["cells"], e["cells"])
         if dense:
             if g["headers"] != names:
                 return "column-names", "headers %r, written %r" % (g["headers"], names)
@@ -1079,7 +1201,7 @@ class C12(Property):
             "writer with minimal/all/nonnumeric/random quoting, comma or tab, header, blank lines), svm (LibSVM/Manik rows), arff (typed "
             "table 0-8 x 1-6: numeric/string/date/nominal, missing cells, values with , ' \" \\ space % ? { } non-ASCII; dense or sparse; "
             "Weka/liac canonical writer or a random subset of permitted spellings). csv/svm/arff lines are delivered directly, through "
-            "DiskSink/DiskSource, through _byte_it_, or with their terminators kept (LF/CRLF/mixed, blank lines between and after records); reuse (one reader object on 2-3 different inputs, some reads abandoned). non-trivial: >=2 lines and >=2 pieces (chunk/delim), >=1 row otherwise")
+            "DiskSink/DiskSource, through _byte_it_, or with their terminators kept (LF/CRLF/mixed, blank lines between and after records); reuse (one reader object on 2-3 different inputs, some reads abandoned); hist (phase 6: ONE DiskSink and ONE DiskSource object per path, 1-3 sibling paths (a.log / a.log.gz / d/a.log ...), histories of 3-12 operations: write (list, str, tuple, generator, the SAME list object again, caller changes the list afterwards), complete read, read abandoned after k lines (closed or dropped), two simultaneous reads of one source, read through a fresh sibling object, read before the first write; patterns write/read/write/read, read/abandon/read again/read a sibling, random; and ONE DelimSource object per chunk list read repeatedly); label (csv: every index -n..n-1 and header name, references outside the table and duplicate header names for (A)). non-trivial: >=2 lines and >=2 pieces (chunk/delim), >=1 row otherwise")
     trusted_base = [
         "zlib/gzip: streaming decompression is assumed to be a homomorphism on concatenation (Decomp.Lawful); the harness feeds the model the decompressed pieces its own decompressobj returns",
         "CPython: str.splitlines / bytes.decode / csv.reader / int() / float() / TextIOWrapper(newline=None) are modelled (splitlines, u8step, csvChar, universalNl) and the models are compared with them on every case",
@@ -1087,6 +1209,8 @@ class C12(Property):
         "phase 5 kinds: lit/undecided (comma-joined rows with tabs / quote characters inside through the fallback parser with _fallback_delim undecided: (A) vs arffAdvanced / arffLineStepF, (C) arff_fallback_undecided_exact / _iff), lit/svmnum (LibSVM/Manik lines whose indices and values are numeral spellings, repeated indices: (A) vs libsvmReadPy incl. dict order)",
         "ARFF: the whole reader (attribute header, data section, encoders, missing flags, dense simple path + fallback parser, sparse rows) is modelled (`arffRead`) and compared with ArffReader on every ARFF case, errors included; Lean theorems cover the header, dense and sparse data lines and the respellings; str.lower is modelled on ASCII only, int()/float() acceptance by `parseIntPy`/`isFloatLitPy` inside `arffReadPy` (ASCII literals with PEP 515 underscores, Py_ISSPACE stripping; = the older `arffRead` on files free of `_` and \\x1c-\\x1f by theorem arffReadPy_conservative)",
         "reader objects: in the model a reader carries only its constructor arguments (ReaderKind); that the real CsvReader/ArffReader/LibsvmReader/ManikReader objects keep nothing else between inputs is checked by the `reuse` cases ((B) reused = fresh, (A) reused = readerRun)",
+        "phase 6: histories of DiskSink/DiskSource operations are modelled as diskRun over a store path -> appended byte strings (theorems disk_history_roundtrip / _gz: every read returns the lines written to that path so far, for every history); the hist cases compare the real long-lived objects with diskRun op by op ((A) A:disk-history) and with the written lines ((B) hist:disk:*). Assumed, not modelled: the operating system's append/flush semantics, gzip multi-member reading (as in disk_roundtrip_gz), TextIOWrapper's own read-ahead (an abandoned read is modelled as a prefix of the complete read)",
+        "phase 6: LabelRows on dense CSV rows (label index resolution incl. negative indices and the header dict, LabelDense feats/label) is modelled as csvLabelRead / labelRows (theorem csv_label_roundtrip) and compared with CsvReader | LabelRows on every csv label case ((A) A:csv-label, (C) C:csv_label_roundtrip); which exception a reference outside the table raises is not modelled (model: 'raises')",
         "zlib: Decomp.Lawful (L1 empty input, L2 concatenation) is assumed of decompressobj.decompress; the harness checks on every chunk case that the returned pieces concatenate to the plain stream",
     ]
     assumptions = [
@@ -1291,7 +1415,7 @@ class C12(Property):
         return {"kind": "reuse", "fmt": fmt, "inputs": inputs, "abandon": abandon}
 
     def generate(self, rng, tier):
-        k = rng.wchoice([(21, "chunk"), (7, "delim"), (10, "disk"), (15, "csv"), (8, "svm"), (33, "arff"), (6, "reuse"), (5, "lit"), (4, "label"), (3, "undec"), (2, "svmnum")])
+        k = rng.wchoice([(21, "chunk"), (7, "delim"), (10, "disk"), (15, "csv"), (8, "svm"), (33, "arff"), (6, "reuse"), (5, "lit"), (4, "label"), (3, "undec"), (2, "svmnum"), (6, "hist")])
         return getattr(self, "gen_" + k)(rng, tier)
 
     # .................................................................. lit (phase 4): numerals as CPython reads them; plain rows on both dense paths
@@ -1575,7 +1699,19 @@ class C12(Property):
         rows = [[rng.choice(["u", "v", "w", "1", "0", "2.5"]) for _ in range(n)] for _ in range(nrows)]
         header = rng.chance(0.4)
         label = rng.choice([0, 0, 1, n - 1, -1] + ([names[0], names[-1]] if header else []))
-        return {"kind": "label", "fmt": "csv", "names": names, "rows": rows, "label": label, "header": header}
+        case = {"kind": "label", "fmt": "csv", "names": names, "rows": rows, "label": label, "header": header}
+        r = rng.below(20)
+        if r < 3:
+            # phase 6: every way of naming a column (all indices from -n to n-1, every header name)
+            case["label"] = rng.choice(list(range(-n, n)) + (names if header else []))
+        elif r < 6:
+            # a reference that names no column of the table ((A) only: the pipeline raises, as labelRows says)
+            case["label"] = rng.choice([n, n + 2, -n - 1, -2 * n, "nope", names[0]] if not header else [n, -n - 1, "nope", "A"])
+        elif r < 8 and header:
+            # two columns with the same name ((A) only: the header dict keeps the last one)
+            case["names"] = [names[0]] + names[:-1]
+            case["label"] = rng.choice([names[0], names[0], -1, 0])
+        return case
 
     def eval_label(self, case, driver):
         """(B) a table read through the labelled public pipelines (reader | LabelRows, SupervisedSimulation over
@@ -1604,7 +1740,18 @@ class C12(Property):
             tipe = "r"
         else:
             lines = ([",".join(names)] if case["header"] else []) + [",".join(r) for r in rows]
+            nn = len(names)
+            if isinstance(label, str):
+                valid = bool(case["header"]) and names.count(label) == 1
+                if case["header"] and names.count(label) > 1:
+                    tags.append("label:duplicate-header-name")
+            else:
+                valid = -nn <= label < nn
+            if not valid:
+                tags.append("label:names-no-single-column")
+                return self._eval_label_model(case, lines, None, fails, tags, driver)
             li = names.index(label) if isinstance(label, str) else (label if label >= 0 else len(names) + label)
+            tags.append("label-ref:%s" % ("name" if isinstance(label, str) else "negative-index" if label < 0 else "index"))
             if li == 0:
                 tags.append("label-is-column-0")
             if label == 0:
@@ -1632,7 +1779,48 @@ class C12(Property):
         if got_s != {"ok": want_ctx}:
             fails.append(F("B", "SupervisedSimulation(%s(ListSource(lines)), %r, %r).read() on %r gives contexts %r; the file says %r" % ("ArffSource" if tipe == "r" else "CsvSource", label, tipe, lines, got_s, want_ctx),
                            "label:%s:supervised-simulation-differs%s" % (fmt, ":label-index-0" if label == 0 else "")))
+        if fmt == "csv":
+            r = self._eval_label_model(case, lines, li, fails, tags, driver, got_p)
+            r["impl"]["sim"] = got_s
+            return r
         return {"fails": fails, "nontrivial": True, "tags": tags, "impl": {"piped": got_p, "sim": got_s}, "model": None}
+
+    def _eval_label_model(self, case, lines, li, fails, tags, driver, got_p=None):
+        """phase 6: (A) `CsvReader(has_header) | LabelRows(label)` on the real code vs `csvLabelRead`; (C) csv_label_roundtrip"""
+        from coba.pipes import CsvReader, LabelRows, Pipes
+        names, rows, label = case["names"], case["rows"], case["label"]
+        if got_p is None:
+            try:
+                got_p = {"ok": [(list(r.feats), r.label) for r in Pipes.join(CsvReader(has_header=case["header"]), LabelRows(label, "c")).filter(list(lines))]}
+            except Exception as e:
+                got_p = {"err": errname(e), "msg": str(e)[:100]}
+        model = None
+        if driver is not None:
+            ans = driver.ask({"op": "csvlabel", "lines": [cps(l) for l in lines], "delim": 44, "header": bool(case["header"]),
+                              "ref": {"name": cps(label)} if isinstance(label, str) else {"idx": label},
+                              "names": [cps(x) for x in names] if case["header"] else None, "n": len(names)})
+            rd = ans["read"]
+            if "err" in rd:
+                model = {"err": rd["err"]}
+            elif rd["ok"] is None:
+                model = {"raises": True}
+            else:
+                model = {"ok": [[[uncps(c) for c in f], uncps(l)] for f, l in rd["ok"]]}
+            impl_c = {"ok": [[list(f), l] for f, l in got_p["ok"]]} if "ok" in got_p else {"raises": True}
+            if (model if "err" not in model else {"raises": True}) != impl_c:
+                fails.append(F("A", "CsvReader(has_header=%r) | LabelRows(%r,'c') on %r: implementation %r, model csvLabelRead %r" % (case["header"], label, lines, got_p, model),
+                               "A:csv-label:" + ("model-raises" if "ok" not in model else "impl-raises" if "ok" not in impl_c else "rows-differ")))
+            col = ans["col"]
+            if li is not None and col != li:
+                fails.append(F("A", "labelCol gives column %r for label %r, names %r (header %r); the harness resolves it to %r" % (col, label, names, case["header"], li), "A:csv-label-col"))
+            if col is not None:
+                tags.append("csvlabel:theorem-hypotheses-hold")
+                want = {"ok": [[[v for k, v in enumerate(r) if k != col], r[col]] for r in rows]}
+                if model != want:
+                    fails.append(F("C", "model: csvLabelRead %r differs from the written (features, label) %r though labelCol = %r" % (model, want, col), "C:csv_label_roundtrip"))
+            else:
+                tags.append("csvlabel:no-column")
+        return {"fails": fails, "nontrivial": True, "tags": tags, "impl": {"piped": got_p}, "model": model}
 
     @staticmethod
     def _svm_py(x, ordered=False):
@@ -1650,8 +1838,245 @@ class C12(Property):
     def _lines_or_err(x):
         return {"err": x["err"]} if "err" in x else {"ok": [uncps(l) for l in x["ok"]]}
 
+    # .................................................................. hist (phase 6): histories of operations on long-lived objects
+    HIST_PATHS = ["a.log", "a.log.gz", "b.log", "d/a.log", "a.log.1", "d/a.log.gz"]
+
+    def gen_hist(self, rng, tier):
+        def gen_lines():
+            n = rng.choice([0, 1, 1, 2, 3])
+            return ["".join(rng.choice(ALPHA_TEXT + ["\x0b", " "]) for _ in range(rng.choice([0, 1, 2, 4]))) for _ in range(n)]
+        if rng.chance(0.25):
+            # one DelimSource object per chunk list, read again and again
+            objs = [self.gen_delim(rng, tier)["chunks"] for _ in range(rng.choice([1, 1, 2]))]
+            ops = []
+            for _ in range(rng.choice([3, 3, 4, 5])):
+                o = rng.wchoice([(4, "r"), (4, "k"), (2, "z")])
+                op = {"o": o, "p": rng.below(len(objs))}
+                if o == "k":
+                    op["k"] = rng.choice([0, 1, 1, 2, 3])
+                    op["how"] = rng.choice(["close", "drop"])
+                ops.append(op)
+            if not any(op["o"] == "r" for op in ops[1:]):
+                ops.append({"o": "r", "p": ops[0]["p"]})
+            return {"kind": "hist", "what": "delim", "objs": objs, "ops": ops}
+        np_ = rng.choice([1, 2, 2, 3])
+        pool = list(self.HIST_PATHS)
+        paths = []
+        for _ in range(np_):
+            paths.append(pool.pop(rng.below(len(pool))))
+        batches = [rng.choice([None, None, 1, 2, 3]) for _ in paths]
+        ops, written, lists = [], set(), []
+        pattern = rng.below(10)
+        n = rng.choice([3, 4, 5, 6, 8])
+
+        def wop(pi):
+            ls = gen_lines()
+            op = {"o": "w", "p": pi, "lines": ls}
+            r = rng.below(10)
+            if r < 1 and len(ls) == 1:
+                op["as"] = "str"
+            elif r < 2:
+                op["as"] = "tuple"
+            elif r < 3:
+                op["as"] = "gen"
+            elif r < 5 and lists:
+                j = rng.choice(lists)
+                op["as"], op["of"], op["lines"] = "same", j, list(ops[j]["lines"])
+            elif r < 7:
+                op["scribble"] = True
+            if op.get("as", "list") == "list" and not op.get("scribble"):
+                lists.append(len(ops))
+            written.add(pi)
+            return op
+
+        def rop(pi, kinds=((5, "r"), (4, "k"), (2, "z"))):
+            o = rng.wchoice(list(kinds))
+            op = {"o": o, "p": pi}
+            if o == "r" and rng.chance(0.25):
+                op["how"] = "fresh"
+            if o == "k":
+                op["k"] = rng.choice([0, 1, 1, 2, 3])
+                op["how"] = rng.choice(["close", "drop"])
+            return op
+        ops.append(wop(0))
+        if pattern < 3:            # write, read, write, read ... on one path, siblings in between
+            for i in range(n):
+                ops.append(rop(0) if i % 2 == 0 else wop(0))
+                if np_ > 1 and rng.chance(0.4):
+                    q = 1 + rng.below(np_ - 1)
+                    ops.append(wop(q) if q not in written or rng.chance(0.5) else rop(q))
+            ops.append({"o": "r", "p": 0})
+        elif pattern < 6:          # read, abandon, read again, read a sibling
+            if np_ > 1:
+                ops.append(wop(1))
+            ops.append(rop(0, ((1, "k"),)))
+            ops.append(rop(0, ((3, "r"), (1, "z"))))
+            if np_ > 1:
+                ops.append(rop(1))
+            if rng.chance(0.6):
+                ops.append(wop(0))
+            ops.append(rop(0, ((1, "k"),)))
+            ops.append({"o": "r", "p": rng.below(np_) if np_ > 1 and 1 in written else 0})
+            ops.append({"o": "r", "p": 0})
+        else:
+            for _ in range(n):
+                pi = rng.below(np_)
+                if pi not in written:
+                    ops.append({"o": "r", "p": pi} if rng.chance(0.3) else wop(pi))
+                else:
+                    ops.append(wop(pi) if rng.chance(0.4) else rop(pi))
+            ops.append({"o": "r", "p": rng.choice(sorted(written))})
+        return {"kind": "hist", "what": "disk", "paths": paths, "batches": batches, "ops": ops}
+
+    @staticmethod
+    def _hist_pattern(ops, i):
+        """shape of the history before op i on the same object: which kinds of operations preceded it (for the signature)"""
+        prev = [o["o"] for o in ops[:i] if o["p"] == ops[i]["p"]]
+        sib = any(o["p"] != ops[i]["p"] for o in ops[:i])
+        bits = []
+        if "k" in prev:
+            bits.append("after-abandoned-read")
+        if "z" in prev:
+            bits.append("after-simultaneous-reads")
+        if prev.count("w") >= 2:
+            bits.append("after-several-writes")
+        if "r" in prev:
+            bits.append("after-read")
+        if sib:
+            bits.append("with-sibling")
+        return "+".join(bits) or "first-use"
+
+    def eval_hist(self, case, driver):
+        ops = case["ops"]
+        if case["what"] == "delim":
+            return self._eval_hist_delim(case, driver)
+        fails, tags = [], ["kind:hist", "hist:disk", "hist:paths=%d" % len(case["paths"]), "hist:ops=%s" % ("3-4" if len(ops) < 5 else "5-7" if len(ops) < 8 else "8+")]
+        paths, batches = case["paths"], case["batches"]
+        impl, mutated = run_disk_history(paths, batches, ops)
+        okw = {"r": "complete read", "k": "read abandoned after k lines", "z": "two simultaneous reads of one DiskSource"}
+        sofar = {}
+        names = {"r": "read", "k": "abandoned-read", "z": "simultaneous-reads"}
+        for o in ops:
+            tags.append("hist:op:" + {"w": "write", **names}[o["o"]])
+            if o.get("as") == "same":
+                tags.append("hist:same-list-object-written-again")
+            if o.get("scribble"):
+                tags.append("hist:caller-changes-list-after-write")
+            if o.get("how") == "fresh":
+                tags.append("hist:fresh-sibling-source")
+        hyp = all("\r" not in l and "\n" not in l for o in ops if o["o"] == "w" for l in o["lines"])
+        nreads = 0
+        for i, (o, got) in enumerate(zip(ops, impl)):
+            pi = o["p"]
+            gz = ".gz" in paths[pi]
+            if o["o"] == "w":
+                sofar.setdefault(pi, [])
+                sofar[pi] = sofar[pi] + list(o["lines"])
+                if got != "wrote" and hyp:
+                    fails.append(F("B", "history %s on paths %r (batch %r): op %d DiskSink.write raised %r" % (json.dumps(ops), paths, batches, i, got),
+                                   "hist:disk:write-raises:" + str(got.get("err") if isinstance(got, dict) else got)))
+                continue
+            if pi not in sofar:
+                tags.append("hist:read-before-first-write")
+                continue                      # no file yet: only (A) (FileNotFoundError)
+            nreads += 1
+            pat = self._hist_pattern(ops, i)
+            tags.append("hist:" + pat)
+            full = sofar[pi]
+            exp = {"lines": {"ok": full[:o["k"]]}} if o["o"] == "k" else {"lines2": [{"ok": full}, {"ok": full}]} if o["o"] == "z" else {"lines": {"ok": full}}
+            if hyp and got != exp:
+                sym = "lines-differ"
+                if isinstance(got, dict) and "lines" in got and "err" in got["lines"]:
+                    sym = "raises-" + got["lines"]["err"]
+                elif got == "nofile":
+                    sym = "raises-FileNotFoundError"
+                fails.append(F("B", "one DiskSink and one DiskSource per path %r (batch %r), history %s: op %d (%s of %r) returned %r; "
+                               "the lines written to that path so far are %r" % (paths, batches, json.dumps(ops), i, okw[o["o"]], paths[pi], got, full),
+                               "hist:disk:%s:%s:%s:%s" % (names[o["o"]], sym, pat, "gz" if gz else "plain")))
+        if mutated and hyp:
+            fails.append(F("B", "DiskSink.write changed the list it was given (history %s, write ops %r)" % (json.dumps(ops), mutated),
+                           "hist:disk:write-changed-the-callers-list"))
+        model = None
+        if driver is not None:
+            mops = []
+            for o in ops:
+                if o["o"] == "w":
+                    mops.append({"o": "w", "p": o["p"], "batch": batches[o["p"]], "lines": [cps(l) for l in o["lines"]]})
+                elif o["o"] == "k":
+                    mops.append({"o": "k", "p": o["p"], "k": o["k"]})
+                elif o["o"] == "z":
+                    mops += [{"o": "r", "p": o["p"]}, {"o": "r", "p": o["p"]}]
+                else:
+                    mops.append({"o": "r", "p": o["p"]})
+            ans = driver.ask({"op": "diskhist", "ops": mops})
+
+            def dec(x):
+                if isinstance(x, str):
+                    return x
+                return {"lines": self._lines_from_model(x["lines"])}
+            run = ans["run"]
+            spec = [dec(x) for x in ans["spec"]]
+            if "ok" in run:
+                mo, j = [dec(x) for x in run["ok"]], 0
+                model = []
+                for o in ops:
+                    if o["o"] == "z":
+                        a, b = mo[j], mo[j + 1]
+                        model.append({"lines2": [a["lines"], b["lines"]]} if isinstance(a, dict) and isinstance(b, dict) else a)
+                        j += 2
+                    else:
+                        model.append(mo[j])
+                        j += 1
+                if impl != model:
+                    bad = [i for i, (a, b) in enumerate(zip(impl, model)) if a != b]
+                    fails.append(F("A", "disk history %s on %r: implementation %r, model diskRun %r (first difference at op %r)" % (json.dumps(ops), paths, impl, model, bad[:1]),
+                                   "A:disk-history"))
+                if ans["hyp"] != hyp:
+                    fails.append(F("A", "diskOpOk differs from the harness' hypothesis test", "A:disk-history-hyp"))
+                if ans["hyp"] and [dec(x) for x in run["ok"]] != spec:
+                    fails.append(F("C", "model: diskRun differs from diskSpecRun under diskOpOk", "C:disk_history_roundtrip"))
+                if ans["hyp"]:
+                    tags.append("hist:theorem-hypotheses-hold")
+            else:
+                model = run
+                fails.append(F("A", "disk history: the model's write raises %r, implementation %r" % (run, impl), "A:disk-history-write-raises"))
+        return {"fails": fails, "nontrivial": nreads >= 2 and len(ops) >= 3, "tags": tags, "impl": impl, "model": model}
+
+    def _eval_hist_delim(self, case, driver):
+        ops, objs = case["ops"], case["objs"]
+        fails, tags = [], ["kind:hist", "hist:delim", "hist:objects=%d" % len(objs)]
+        impl = run_delim_history(objs, ops)
+        names = {"r": "read", "k": "abandoned-read", "z": "simultaneous-reads"}
+        model = None
+        mlines = None
+        if driver is not None:
+            mlines = []
+            for c in objs:
+                ans = driver.ask({"op": "delim", "chunks": [cps(x) for x in c]})
+                mlines.append([uncps(l) for l in ans["fix"]])
+            model = []
+        for i, (o, got) in enumerate(zip(ops, impl)):
+            tags.append("hist:op:" + names[o["o"]])
+            pat = self._hist_pattern(ops, i)
+            tags.append("hist:" + pat)
+            full = "".join(objs[o["p"]]).splitlines()
+            exp = {"lines": {"ok": full[:o["k"]]}} if o["o"] == "k" else {"lines2": [{"ok": full}, {"ok": full}]} if o["o"] == "z" else {"lines": {"ok": full}}
+            if got != exp:
+                sym = "raises-" + got["lines"]["err"] if "lines" in got and "err" in got["lines"] else "lines-differ"
+                fails.append(F("B", "one DelimSource(IterableSource(chunks)) object per chunk list %r, history %s: op %d returned %r; "
+                               "''.join(chunks).splitlines() = %r" % (objs, json.dumps(ops), i, got, full),
+                               "hist:delim:%s:%s:%s" % (names[o["o"]], sym, pat)))
+            if mlines is not None:
+                m = mlines[o["p"]]
+                me = {"lines": {"ok": m[:o["k"]]}} if o["o"] == "k" else {"lines2": [{"ok": m}, {"ok": m}]} if o["o"] == "z" else {"lines": {"ok": m}}
+                model.append(me)
+                if got != me:
+                    fails.append(F("A", "DelimSource object history %s over %r: op %d implementation %r, model delimFix %r" % (json.dumps(ops), objs, i, got, me), "A:delim-history"))
+        return {"fails": fails, "nontrivial": len(ops) >= 3 and any(len("".join(c).splitlines()) >= 2 for c in objs), "tags": tags, "impl": impl, "model": model}
+
+
     def search(self, rng, tier):
-        k = rng.wchoice([(30, "chunk"), (10, "delim"), (10, "disk"), (20, "csv"), (10, "svm"), (20, "arff")])
+        k = rng.wchoice([(30, "chunk"), (10, "delim"), (10, "disk"), (20, "csv"), (10, "svm"), (20, "arff"), (10, "hist")])
         c = getattr(self, "gen_" + k)(rng, tier)
         if k == "chunk" and c["enc"] is None and len(c["text"].encode()) <= 60:
             c["chunk"] = "all"
@@ -1820,6 +2245,20 @@ class C12(Property):
         cs.append({"kind": "delim", "chunks": [" "]})
         cs.append({"kind": "delim", "chunks": ["a", " ", "b"]})
         cs.append({"kind": "delim", "chunks": ["", "", ""]})
+        # phase 6: histories on long-lived DiskSink / DiskSource / DelimSource objects
+        for paths in (["a.log", "a.log.gz"], ["d/a.log.gz", "a.log"]):
+            cs.append({"kind": "hist", "what": "disk", "paths": paths, "batches": [None, 2], "ops": [
+                {"o": "w", "p": 0, "lines": ["aé", "b"]}, {"o": "r", "p": 0}, {"o": "w", "p": 0, "lines": ["c"]}, {"o": "r", "p": 0},
+                {"o": "w", "p": 1, "lines": ["x", "y", "z"]}, {"o": "k", "p": 0, "k": 1, "how": "close"}, {"o": "r", "p": 0},
+                {"o": "r", "p": 1}, {"o": "k", "p": 1, "k": 2, "how": "drop"}, {"o": "z", "p": 1}, {"o": "r", "p": 0, "how": "fresh"}, {"o": "r", "p": 1}]})
+            cs.append({"kind": "hist", "what": "disk", "paths": paths, "batches": [1, None], "ops": [
+                {"o": "r", "p": 1}, {"o": "w", "p": 0, "lines": ["a", "", "b "]}, {"o": "w", "p": 0, "lines": ["a", "", "b "], "as": "same", "of": 1},
+                {"o": "z", "p": 0}, {"o": "w", "p": 1, "lines": ["only"], "as": "str"}, {"o": "w", "p": 0, "lines": ["t", "u"], "scribble": True},
+                {"o": "w", "p": 1, "lines": ["g1", "g2"], "as": "gen"}, {"o": "w", "p": 1, "lines": [], "as": "tuple"}, {"o": "k", "p": 1, "k": 0, "how": "close"},
+                {"o": "r", "p": 0}, {"o": "r", "p": 1}]})
+        cs.append({"kind": "hist", "what": "delim", "objs": [["a\r", "\nb\nc", "d\n", "e"], ["x\u2028", "y"]], "ops": [
+            {"o": "k", "p": 0, "k": 1, "how": "close"}, {"o": "r", "p": 0}, {"o": "k", "p": 0, "k": 2, "how": "drop"}, {"o": "r", "p": 1},
+            {"o": "z", "p": 0}, {"o": "r", "p": 0}]})
         cs.append({"kind": "disk", "writes": [["aé", "", "b "]], "gz": False, "batch": None})
         cs.append({"kind": "disk", "writes": [["a", "b", "c", "d"], "e"], "gz": True, "batch": 2})
         cs.append({"kind": "disk", "writes": [["a\rb"]], "gz": False, "batch": None})
@@ -1883,6 +2322,10 @@ class C12(Property):
         cs.append({"kind": "label", "fmt": "csv", "names": ["a", "b", "y"], "rows": [["spam", "1.5", "free"], ["ham", "0.25", "lunch"], ["spam", "3", "win"]], "label": 0, "header": False})
         cs.append({"kind": "label", "fmt": "csv", "names": ["a", "b", "y"], "rows": [["spam", "1.5", "free"], ["ham", "0.25", "lunch"]], "label": -1, "header": False})
         cs.append({"kind": "label", "fmt": "csv", "names": ["a", "b", "y"], "rows": [["spam", "1.5", "free"], ["ham", "0.25", "lunch"]], "label": "a", "header": True})
+        # phase 6: every way of naming a column; references outside the table; duplicate header names
+        for lab, hd, nm in [(-3, False, None), (-2, True, None), (1, True, None), (2, False, None), ("b", True, None), ("y", True, None),
+                            (3, False, None), (-4, True, None), ("nope", True, None), ("a", False, None), ("a", True, ["a", "a", "y"]), (-1, True, ["a", "a", "y"])]:
+            cs.append({"kind": "label", "fmt": "csv", "names": nm or ["a", "b", "y"], "rows": [["spam", "1.5", "free"], ["ham", "0.25", "lunch"]], "label": lab, "header": hd})
         for tok in ["1_000", "1__0", "_1", "1_", "+1", " 12 ", "inf", "-Infinity", "NaN", "1_0.5e1_0", "1._5", "1e_5", ".", "+.5", "\u20037", "0x10", "\x0bNaN\x1c", "1\x1c", "\x1f2.5"]:
             cs.append({"kind": "lit", "sub": "num", "tok": tok})
         for vals, pad in [(["a", "b"], 0), (["a b", "?", "{x}"], 1), (["\tx", "y"], 0), (["x\\", "y"], 0), (["", "y"], 2), (["%", "1.5", "é"], 2)]:
@@ -1895,6 +2338,13 @@ class C12(Property):
         for items in [[["1_0", "2"]], [["1__0", "2"]], [["3", "1e"]], [["3\x1c", "1"]], [["3", "1"], ["4", "2"], ["3", "9"]], [["+3", "nan"], ["007", "-inf"]], [["3", "1_0.5"]]]:
             for manik in (False, True):
                 cs.append({"kind": "lit", "sub": "svmnum", "rows": [{"labels": ["1"], "items": items}], "manik": manik})
+        # hand-made cases and corrected false alarms: corpus/C12/*.json
+        d = os.path.join(os.path.dirname(os.path.dirname(os.path.dirname(os.path.abspath(__file__)))), "corpus", "C12")
+        if os.path.isdir(d):
+            for nm in sorted(os.listdir(d)):
+                if nm.endswith(".json"):
+                    with open(os.path.join(d, nm), encoding="utf-8") as f:
+                        cs.append(json.load(f))
         return cs
 
     def exhaustive(self, tier):
@@ -2643,6 +3093,33 @@ class C12(Property):
     # ------------------------------------------------------------------ shrinking / replay
     def shrink(self, case):
         k = case["kind"]
+        if k == "hist":
+            ops = case["ops"]
+            for i in range(len(ops)):
+                if len(ops) > 1:
+                    rest = [dict(o) for o in ops[:i] + ops[i + 1:]]
+                    for o in rest:      # references to earlier write ops move
+                        if o.get("as") == "same":
+                            if o["of"] == i:
+                                o.pop("as"), o.pop("of")
+                            elif o["of"] > i:
+                                o["of"] -= 1
+                    yield dict(case, ops=rest)
+            for i, o in enumerate(ops):
+                if o["o"] == "w":
+                    for j in range(len(o["lines"])):
+                        if not any(x.get("as") == "same" and x.get("of") == i for x in ops) and o.get("as") != "same":
+                            yield dict(case, ops=ops[:i] + [dict(o, lines=o["lines"][:j] + o["lines"][j + 1:])] + ops[i + 1:])
+                    for key in ("scribble", "as"):
+                        if key in o and o.get("as") != "same":
+                            yield dict(case, ops=ops[:i] + [{a: b for a, b in o.items() if a != key}] + ops[i + 1:])
+                elif o["o"] == "z" or (o["o"] == "k" and False):
+                    yield dict(case, ops=ops[:i] + [{"o": "r", "p": o["p"]}] + ops[i + 1:])
+                elif o.get("how") == "fresh":
+                    yield dict(case, ops=ops[:i] + [{"o": "r", "p": o["p"]}] + ops[i + 1:])
+            if case["what"] == "disk" and any(b for b in case["batches"]):
+                yield dict(case, batches=[None for _ in case["batches"]])
+            return
         if k == "label":
             rs = case["rows"]
             for i in range(len(rs)):
@@ -2792,6 +3269,23 @@ class C12(Property):
 
     def snippet(self, case):
         k = case["kind"]
+        if k == "hist" and case["what"] == "disk":
+            return ("import os, tempfile\nfrom itertools import islice\nfrom coba.pipes.sinks import DiskSink\nfrom coba.pipes.sources import DiskSource\n"
+                    "d = tempfile.mkdtemp(); paths = [os.path.join(d, p) for p in %r]\n"
+                    "[os.makedirs(os.path.dirname(p), exist_ok=True) for p in paths]\n"
+                    "sinks = [DiskSink(p, **({'batch': b} if b else {})) for p, b in zip(paths, %r)]; srcs = [DiskSource(p) for p in paths]\n"
+                    "for op in %r:   # w: sinks[p].write(lines)  r: list(srcs[p].read())  k: first k lines, then the generator is closed  z: two reads at once\n"
+                    "    if op['o'] == 'w': sinks[op['p']].write(list(op['lines']))\n"
+                    "    elif op['o'] == 'k': it = iter(srcs[op['p']].read()); print(op, list(islice(it, op['k']))); it.close()\n"
+                    "    elif op['o'] == 'z': print(op, [list(x) for x in zip(srcs[op['p']].read(), srcs[op['p']].read())])\n"
+                    "    else: print(op, list(srcs[op['p']].read()))\n" % (case["paths"], case["batches"], case["ops"]))
+        if k == "hist":
+            return ("from itertools import islice\nfrom coba.pipes.sources import DelimSource, IterableSource\n"
+                    "srcs = [DelimSource(IterableSource(c)) for c in %r]\n"
+                    "for op in %r:\n"
+                    "    if op['o'] == 'k': it = iter(srcs[op['p']].read()); print(op, list(islice(it, op['k']))); it.close()\n"
+                    "    elif op['o'] == 'z': print(op, [list(x) for x in zip(srcs[op['p']].read(), srcs[op['p']].read())])\n"
+                    "    else: print(op, list(srcs[op['p']].read()))\n" % (case["objs"], case["ops"]))
         if k == "label":
             return "# labelled pipeline case (see the failure text for the exact call): %r\n" % (case,)
         if k == "lit" and case["sub"] == "num":
